@@ -242,6 +242,13 @@ func C02(r *core.Run) {
 				allOK := true
 				for k := 0; k < nt; k++ {
 					t, ok := g.gen(rg)
+					if k > 0 && rg.IntN(6) == 0 {
+						// the same report or key again (a repeated motion report, key auto-repeat)
+						t = ts[k-1]
+						if t.class == "sgrmotion" {
+							ok = false
+						}
+					}
 					// a token that is a proper prefix of one of this entry's key
 					// sequences (rxvt: focus-out ESC [ O vs Ctrl-Up ESC [ O a) is
 					// ambiguous by the description itself: not framing-safe
@@ -391,6 +398,9 @@ func C02(r *core.Run) {
 	// a sequence split across two reads while the main loop is held up past the escape timer
 	c05stall(r)
 	c02fullRead(r)
+	// sequences that arrive slower than the escape timeout as a whole but faster per byte
+	trickle(r, Pristine("xterm-256color"), [][]byte{[]byte("\x1b[1;5A"), []byte("\x1b[<0;10;10M"), []byte("\x1b[15;2~"), []byte("\x1b[200~"), []byte("\x1b]52;c;aGk=\x07")}[:r.Pick(3, 5)], "sequence")
+	trickle(r, Pristine("vt220"), [][]byte{[]byte("\x1b[17~"), []byte("\x1b[28~")}[:r.Pick(1, 2)], "sequence")
 }
 
 // c02fullRead: "consumes every byte": input that ends in a lone ESC is completed by the escape
@@ -398,7 +408,7 @@ func C02(r *core.Run) {
 // reader takes at most 128 bytes at a time; a read that fills its buffer is a boundary case).
 func c02fullRead(r *core.Run) {
 	ti := Pristine("xterm-256color")
-	sizes := []int{1, 2, 64, 127, 128, 129, 255, 256, 257, 384}
+	sizes := []int{1, 2, 64, 127, 128, 129, 255, 256, 257, 384, -128, -256}
 	for rep := 0; rep < r.Pick(1, 10); rep++ {
 		for _, n := range sizes {
 			ls, err := startScreen(ti, 40, 10, nil)
@@ -419,7 +429,14 @@ func c02fullRead(r *core.Run) {
 					}
 				}
 			}()
-			in := append(bytes.Repeat([]byte("a"), n-1), 0x1b)
+			esc := n > 0
+			if n < 0 {
+				n = -n // plain text that fills the reader's buffer exactly, nothing pending behind it
+			}
+			in := bytes.Repeat([]byte("a"), n)
+			if esc {
+				in[n-1] = 0x1b
+			}
 			for o := 0; o < len(in); o += 128 {
 				ls.tty.Feed(in[o:min(o+128, len(in))])
 			}
@@ -441,7 +458,7 @@ func c02fullRead(r *core.Run) {
 			verdict := ""
 			if timedOut {
 				if lost, w := ls.sentinelLost(); lost {
-					verdict = fmt.Sprintf("%d of %d events were delivered and the library is idle (%s): the ESC at the end of the input never expires", len(got), n, w)
+					verdict = fmt.Sprintf("%d of %d events were delivered and the library is idle (%s): input that has been read is never delivered (an ESC at the end never expires)", len(got), n, w)
 				} else {
 					r.Inconclusive(fmt.Sprintf("full-read scenario n=%d: watchdog", n))
 				}
@@ -451,7 +468,7 @@ func c02fullRead(r *core.Run) {
 						verdict = fmt.Sprintf("event %d is %s, expected the rune a", i, e)
 						break
 					}
-					if i == n-1 && !(e.T == "key" && e.Key == tcell.KeyEsc && e.Mod == 0) {
+					if i == n-1 && in[len(in)-1] == 0x1b && !(e.T == "key" && e.Key == tcell.KeyEsc && e.Mod == 0) {
 						verdict = fmt.Sprintf("last event is %s, expected Esc", e)
 					}
 				}
